@@ -96,6 +96,7 @@ func (s *packetManager) incomingPacket(pkt orderedRequest) {
 
 // register outgoing packets as being ready
 func (s *packetManager) readyPacket(pkt orderedResponse) {
+	vhook("pm.ready", uint64(pkt.orderid), 0)
 	s.responses <- pkt
 	s.working.Done()
 }
@@ -133,7 +134,9 @@ func (s *packetManager) workerChan(runWorker func(chan orderedRequest),
 			case *sshFxpClosePacket:
 				// wait for reads/writes to finish when file is closed
 				// incomingPacket() call must occur after this
+				vhook("pm.barrier.enter", uint64(pkt.orderid), 0)
 				s.working.Wait()
+				vhook("pm.barrier.pass", uint64(pkt.orderid), 0)
 			}
 			s.incomingPacket(pkt)
 			// all non-RW use sequential cmdChan
@@ -160,6 +163,7 @@ func (s *packetManager) controller() {
 			s.outgoing = append(s.outgoing, pkt)
 			s.outgoing.Sort()
 		case <-s.fini:
+			vhook("pm.fini", uint64(len(s.incoming)), uint64(len(s.outgoing)+len(s.responses)))
 			return
 		}
 		s.maybeSendPackets()
@@ -181,6 +185,7 @@ func (s *packetManager) maybeSendPackets() {
 		if in.orderID() == out.orderID() {
 			debug("Sending packet: %v", out.id())
 			s.sender.sendPacket(out.(encoding.BinaryMarshaler))
+			vhook("pm.send", uint64(out.orderID()), 0)
 			if s.alloc != nil {
 				// mark for reuse the slices allocated for this request
 				s.alloc.ReleasePages(in.orderID())
